@@ -19,7 +19,7 @@ RULE = ("two surface positions <= 0.2 NM apart (30% identical) encoded with the 
         "oracle: position()/surface_position() within one quantisation step of the newer frame's encoded position, None only if the "
         "reference NL of the two encoded latitudes differ; missing reference -> RuntimeError. non-trivial = receiver and target on "
         "opposite sides of the equator / lon 0 / +-180, or latitude within 0.02 deg of a transition"
-        ' Also: int / float / datetime time stamps (incl. a DST gap), hex letter case, receivers configured in whole degrees as ints, the same strings re-decoded with exchanged time stamps, 40 000 / 300 000 distinct pairs in a row in one process with identical pairs coming back later and four concurrent callers at the end (leg volume), the first position decodes of a freshly imported package made by four threads at once (leg first_use).')
+        ' Also: int / float / datetime time stamps (incl. a DST gap), hex letter case, receivers configured in whole degrees as ints, the same strings re-decoded with exchanged time stamps, 40 000 / 300 000 distinct pairs in a row in one process with identical pairs coming back later and four concurrent callers at the end (leg volume), the first position decodes of a freshly imported package made by four threads at once (leg first_use), receivers as numpy int8-int64, receivers within 3 ulp of half-way between two longitude candidates, unsigned numpy time stamps, round CPR fields with corner fields.')
 ASSUMPTIONS = ["msg0 is the even frame and msg1 the odd frame, as documented", "receiver within 45 NM great-circle of both targets and < 45 deg of longitude away",
                "pairs with an encoded latitude within 1e-9 deg of an NL transition are counted, not judged"]
 
